@@ -72,6 +72,11 @@ UNIT = {
         ('@file', 'prelude_sem.rs'),
         ('@file', 'prelude_env.rs'),
         ('@file', 'prelude_sem_eval.rs'),
+        # parse_variable_value slices and scans a &str (outside Verus's string support): its result is named
+        # by an uninterpreted function; agreement with the tokenizer's constant rules is checked by Kani (unit arith)
+        (TOKEN, ['fn parse_integer_constant'], {'attrs': ['#[verifier::external_body]']}),
+        (EVAL, ['fn parse_variable_value'], {'attrs': ['#[verifier::external_body]'], 'ret': 'r', 'ensures': [
+            'r is Ok <==> value_spec(value@) is Some', 'r is Ok ==> r->Ok_0 == value_spec(value@)->0']}),
         (EVAL, ['fn expand_variable'], {
             'ret': 'res',
             'ensures': ['value_contract(var_value(*env, name@), res)'],
